@@ -351,7 +351,19 @@ def run_name(case, out):
     kw = {} if size is None else {"mask_size": size}
     if name.startswith("s_shell"):
         size0 = math.ceil((size0 + nums[1]) / 2) * 2
-    shape = (size0,) * 3
+    # the statement promises the same SHAPES as the direct constructors; how large a box the generator picks when none
+    # is given (or how it pads a shell's box) is its own business - so the box is taken from the result and the analytic
+    # solid is placed at that box's centre
+    ok, m = call(out, "generate_mask", lambda: cryomask.generate_mask(name, **kw))
+    if not ok:
+        return
+    m = np.asarray(m)
+    if not out.check(m.ndim == 3 and min(m.shape) >= 2, "generate_mask:not_a_3d_box", f"{m.shape}"):
+        return
+    if size is not None and not name.startswith("s_shell"):
+        out.check(m.shape == (size,) * 3, "generate_mask:explicit_mask_size_not_used", f"{m.shape} vs {size}")
+    out.label("name:default_box_as_today" if m.shape == (size0,) * 3 else "name:other_box")
+    shape = tuple(int(v) for v in m.shape)
     c = default_center(shape)
     tie = None
     if name.startswith("sphere"):
@@ -368,9 +380,7 @@ def run_name(case, out):
         ei, ti = ell_set(shape, c, [int(r - t / 2) for r in nums[:3]])
         exp, tie = eo & ~ei, to | ti
     out.nontrivial = size is not None
-    ok, m = call(out, "generate_mask", lambda: cryomask.generate_mask(name, **kw))
-    if ok:
-        compare_binary(out, m, exp, "generate_mask", f"{name} size={size}", tie)
+    compare_binary(out, m, exp, "generate_mask", f"{name} size={size}", tie)
     # the parser itself
     ok, ps = call(out, "parse_shape_string", lambda: cryomask.parse_shape_string(name))
     if ok:
